@@ -45,9 +45,10 @@ def parseSet : Sexp → Option (Nat × SetExpr)
 def parseStmt : Sexp → Option Stmt
   | .list (.atom "ins" :: t :: rows) => do
     pure (.insert (← t.nat?) (← rows.mapM fun r => r.items.mapM parseVal))
-  | .list [.atom "upd", t, .list sets, w] => do
-    pure (.update (← t.nat?) (← sets.mapM parseSet) (← parsePred w))
-  | .list [.atom "del", t, w] => do pure (.delete (← t.nat?) (← parsePred w))
+  | .list [.atom "upd", t, .list sets, w, .list [.atom "ord", .list ord]] => do
+    pure (.update (← t.nat?) (← sets.mapM parseSet) (← parsePred w) (← ord.mapM Sexp.int?))
+  | .list [.atom "del", t, w, .list [.atom "ord", .list ord]] => do
+    pure (.delete (← t.nat?) (← parsePred w) (← ord.mapM Sexp.int?))
   | _ => none
 
 def fmtVal : Val → String
@@ -65,19 +66,36 @@ def fmtErr : Err → String
   | .fkChild => "err:1452"
   | .depth => "err:depth"
   | .notNull => "err:1048"
+  | .fkNotNull => "err:1105"
   | .dup => "err:1062"
   | .fuel => "err:fuel"
 
+/-- Schema feature of finding `shared_child_column_update_cascade`: two constraints declared on the
+same table share a child column, one of them cascades updates, and the table is itself referenced
+(so that its editor goes through the analyzer's editor cache). -/
+def sharedChildColumn (S : Schema) : Bool :=
+  S.fks.any fun f => S.fks.any fun g =>
+    f != g && f.child == g.child && f.ccols.any (g.ccols.contains ·) &&
+    (f.onUpd == .cascade || g.onUpd == .cascade) && S.fks.any (fun h => h.parent == f.child)
+
 /-- Region predicates (defect classes decided on the statement and the state before it). -/
 def regionOf (S : Schema) (db : Db) : Stmt → String
-  | .update t sets w =>
-    if (selectRows db t w).any (fun old =>
+  | .update t sets w ord =>
+    if (selectRows db t w ord).any (fun old =>
         S.fks.any fun f => f.child == t && f.parent == t &&
           let new := applySets old sets
           key old f.ccols != key new f.ccols && key old f.pcols != key new f.pcols &&
           key new f.ccols == key old f.pcols)
-    then "selfref_update_moves_key" else "-"
+    then "selfref_update_moves_key"
+    else if sharedChildColumn S then "shared_child_column_update_cascade" else "-"
   | _ => "-"
+
+/-- The structural hypotheses of the theorems (`DelGraphOk`/`UpdGraphOk`/`InsertRootOk` minus
+their guards) hold for the editor graph the model builds for this statement. -/
+def stmtGraphOk (S : Schema) : Stmt → Bool
+  | .insert t _ => graphOkB S .insert t
+  | .update t _ _ _ => graphOkB S .update t
+  | .delete t _ _ => graphOkB S .delete t
 
 def handle (p : List Sexp) : String :=
   match p with
@@ -93,9 +111,12 @@ def handle (p : List Sexp) : String :=
           let cls := match e with | none => "ok" | some e => fmtErr e
           let body := cls ++ ";" ++ fmtDump S.ntab db' ++ ";ri="
           let ri := riB S db'
-          let region := if region == "-" && !ri then
+          let gok := stmtGraphOk S st
+          let region := if region == "-" && !gok then "editor_graph_not_well_formed"
+            else if region == "-" && !ri then
               (match regionOf S db st with | "-" => "unclassified" | r => r) else region
-          (db', impl ++ body ++ (if ri then "1" else "0") ++ "|", spec ++ body ++ "1|", region))
+          (db', impl ++ body ++ (if ri then "1" else "0") ++ "|",
+           spec ++ body ++ "1|" ++ (if gok then "" else "graph!"), region))
         (init, "", "", "-")
       if impl == spec then answer impl else answer impl spec region
     | _, _, _ => answer "bad-case"
